@@ -111,9 +111,16 @@ func (s *memoryStore) GraphNames(ctx context.Context, names chan<- string) error
 	if names == nil {
 		return fmt.Errorf("cannot provide an empty channel")
 	}
+	// Copy the names and release the lock before sending them, so a consumer
+	// that uses the store while it drains the channel cannot deadlock with a
+	// writer waiting for the lock.
 	s.rwmu.RLock()
-	defer s.rwmu.RUnlock()
+	ks := make([]string, 0, len(s.graphs))
 	for k := range s.graphs {
+		ks = append(ks, k)
+	}
+	s.rwmu.RUnlock()
+	for _, k := range ks {
 		names <- k
 	}
 	close(names)
@@ -131,6 +138,14 @@ type memory struct {
 	idxSP map[string]map[string]*triple.Triple
 	idxPO map[string]map[string]*triple.Triple
 	idxSO map[string]map[string]*triple.Triple
+}
+
+// rlock takes the read lock of the graph and returns the function that
+// releases it; calling it more than once is harmless.
+func (m *memory) rlock() func() {
+	m.rwmu.RLock()
+	var once sync.Once
+	return func() { once.Do(m.rwmu.RUnlock) }
 }
 
 // ID returns the id for this graph.
@@ -458,8 +473,8 @@ func (m *memory) Objects(ctx context.Context, s *node.Node, p *predicate.Predica
 	sUUID := UUIDToByteString(s.UUID())
 	pUUID := UUIDToByteString(p.PartialUUID())
 	spIdx := sUUID + pUUID
-	m.rwmu.RLock()
-	defer m.rwmu.RUnlock()
+	unlock := m.rlock()
+	defer unlock()
 	defer close(objs)
 
 	ckr := newChecker(lo, p)
@@ -491,6 +506,10 @@ func (m *memory) Objects(ctx context.Context, s *node.Node, p *predicate.Predica
 		return err
 	}
 
+	// The results have been copied: release the lock before sending them, so a
+	// consumer that uses the graph while it drains the channel cannot deadlock
+	// with a writer waiting for the lock.
+	unlock()
 	for _, t := range strObs {
 		if t != "" && ckr.CheckLimitAndUpdate() {
 			objs <- st[t].Object()
@@ -510,8 +529,8 @@ func (m *memory) Subjects(ctx context.Context, p *predicate.Predicate, o *triple
 	pUUID := UUIDToByteString(p.PartialUUID())
 	oUUID := UUIDToByteString(o.UUID())
 	poIdx := pUUID + oUUID
-	m.rwmu.RLock()
-	defer m.rwmu.RUnlock()
+	unlock := m.rlock()
+	defer unlock()
 	defer close(subjs)
 
 	ckr := newChecker(lo, p)
@@ -543,6 +562,10 @@ func (m *memory) Subjects(ctx context.Context, p *predicate.Predicate, o *triple
 		return err
 	}
 
+	// The results have been copied: release the lock before sending them, so a
+	// consumer that uses the graph while it drains the channel cannot deadlock
+	// with a writer waiting for the lock.
+	unlock()
 	cnt := 0
 	for _, t := range strSubs {
 		if t != "" && ckr.CheckLimitAndUpdate() {
@@ -564,8 +587,8 @@ func (m *memory) PredicatesForSubjectAndObject(ctx context.Context, s *node.Node
 	sUUID := UUIDToByteString(s.UUID())
 	oUUID := UUIDToByteString(o.UUID())
 	soIdx := sUUID + oUUID
-	m.rwmu.RLock()
-	defer m.rwmu.RUnlock()
+	unlock := m.rlock()
+	defer unlock()
 	defer close(prds)
 
 	ckr := newChecker(lo, nil)
@@ -597,6 +620,10 @@ func (m *memory) PredicatesForSubjectAndObject(ctx context.Context, s *node.Node
 		return err
 	}
 
+	// The results have been copied: release the lock before sending them, so a
+	// consumer that uses the graph while it drains the channel cannot deadlock
+	// with a writer waiting for the lock.
+	unlock()
 	cnt := 0
 	for _, t := range strPrds {
 		if t != "" && ckr.CheckLimitAndUpdate() {
@@ -616,8 +643,8 @@ func (m *memory) PredicatesForSubject(ctx context.Context, s *node.Node, lo *sto
 	}
 
 	sUUID := UUIDToByteString(s.UUID())
-	m.rwmu.RLock()
-	defer m.rwmu.RUnlock()
+	unlock := m.rlock()
+	defer unlock()
 	defer close(prds)
 
 	ckr := newChecker(lo, nil)
@@ -649,6 +676,10 @@ func (m *memory) PredicatesForSubject(ctx context.Context, s *node.Node, lo *sto
 		return err
 	}
 
+	// The results have been copied: release the lock before sending them, so a
+	// consumer that uses the graph while it drains the channel cannot deadlock
+	// with a writer waiting for the lock.
+	unlock()
 	cnt := 0
 	for _, t := range strPrds {
 		if t != "" && ckr.CheckLimitAndUpdate() {
@@ -668,8 +699,8 @@ func (m *memory) PredicatesForObject(ctx context.Context, o *triple.Object, lo *
 	}
 
 	oUUID := UUIDToByteString(o.UUID())
-	m.rwmu.RLock()
-	defer m.rwmu.RUnlock()
+	unlock := m.rlock()
+	defer unlock()
 	defer close(prds)
 
 	ckr := newChecker(lo, nil)
@@ -701,6 +732,10 @@ func (m *memory) PredicatesForObject(ctx context.Context, o *triple.Object, lo *
 		return err
 	}
 
+	// The results have been copied: release the lock before sending them, so a
+	// consumer that uses the graph while it drains the channel cannot deadlock
+	// with a writer waiting for the lock.
+	unlock()
 	cnt := 0
 	for _, t := range strPrds {
 		if t != "" && ckr.CheckLimitAndUpdate() {
@@ -720,8 +755,8 @@ func (m *memory) TriplesForSubject(ctx context.Context, s *node.Node, lo *storag
 	}
 
 	sUUID := UUIDToByteString(s.UUID())
-	m.rwmu.RLock()
-	defer m.rwmu.RUnlock()
+	unlock := m.rlock()
+	defer unlock()
 	defer close(trpls)
 
 	ckr := newChecker(lo, nil)
@@ -753,6 +788,10 @@ func (m *memory) TriplesForSubject(ctx context.Context, s *node.Node, lo *storag
 		return err
 	}
 
+	// The results have been copied: release the lock before sending them, so a
+	// consumer that uses the graph while it drains the channel cannot deadlock
+	// with a writer waiting for the lock.
+	unlock()
 	cnt := 0
 	for _, t := range strTrpls {
 		if t != "" && ckr.CheckLimitAndUpdate() {
@@ -772,8 +811,8 @@ func (m *memory) TriplesForPredicate(ctx context.Context, p *predicate.Predicate
 	}
 
 	pUUID := UUIDToByteString(p.PartialUUID())
-	m.rwmu.RLock()
-	defer m.rwmu.RUnlock()
+	unlock := m.rlock()
+	defer unlock()
 	defer close(trpls)
 
 	ckr := newChecker(lo, p)
@@ -805,6 +844,10 @@ func (m *memory) TriplesForPredicate(ctx context.Context, p *predicate.Predicate
 		return err
 	}
 
+	// The results have been copied: release the lock before sending them, so a
+	// consumer that uses the graph while it drains the channel cannot deadlock
+	// with a writer waiting for the lock.
+	unlock()
 	cnt := 0
 	for _, t := range strTrpls {
 		if t != "" && ckr.CheckLimitAndUpdate() {
@@ -824,8 +867,8 @@ func (m *memory) TriplesForObject(ctx context.Context, o *triple.Object, lo *sto
 	}
 
 	oUUID := UUIDToByteString(o.UUID())
-	m.rwmu.RLock()
-	defer m.rwmu.RUnlock()
+	unlock := m.rlock()
+	defer unlock()
 	defer close(trpls)
 
 	ckr := newChecker(lo, nil)
@@ -857,6 +900,10 @@ func (m *memory) TriplesForObject(ctx context.Context, o *triple.Object, lo *sto
 		return err
 	}
 
+	// The results have been copied: release the lock before sending them, so a
+	// consumer that uses the graph while it drains the channel cannot deadlock
+	// with a writer waiting for the lock.
+	unlock()
 	cnt := 0
 	for _, t := range strTrpls {
 		if t != "" && ckr.CheckLimitAndUpdate() {
@@ -878,8 +925,8 @@ func (m *memory) TriplesForSubjectAndPredicate(ctx context.Context, s *node.Node
 	sUUID := UUIDToByteString(s.UUID())
 	pUUID := UUIDToByteString(p.PartialUUID())
 	spIdx := sUUID + pUUID
-	m.rwmu.RLock()
-	defer m.rwmu.RUnlock()
+	unlock := m.rlock()
+	defer unlock()
 	defer close(trpls)
 
 	ckr := newChecker(lo, p)
@@ -911,6 +958,10 @@ func (m *memory) TriplesForSubjectAndPredicate(ctx context.Context, s *node.Node
 		return err
 	}
 
+	// The results have been copied: release the lock before sending them, so a
+	// consumer that uses the graph while it drains the channel cannot deadlock
+	// with a writer waiting for the lock.
+	unlock()
 	cnt := 0
 	for _, t := range strTrpls {
 		if t != "" && ckr.CheckLimitAndUpdate() {
@@ -932,8 +983,8 @@ func (m *memory) TriplesForPredicateAndObject(ctx context.Context, p *predicate.
 	pUUID := UUIDToByteString(p.PartialUUID())
 	oUUID := UUIDToByteString(o.UUID())
 	poIdx := pUUID + oUUID
-	m.rwmu.RLock()
-	defer m.rwmu.RUnlock()
+	unlock := m.rlock()
+	defer unlock()
 	defer close(trpls)
 
 	ckr := newChecker(lo, p)
@@ -965,6 +1016,10 @@ func (m *memory) TriplesForPredicateAndObject(ctx context.Context, p *predicate.
 		return err
 	}
 
+	// The results have been copied: release the lock before sending them, so a
+	// consumer that uses the graph while it drains the channel cannot deadlock
+	// with a writer waiting for the lock.
+	unlock()
 	cnt := 0
 	for _, t := range strTrpls {
 		if t != "" && ckr.CheckLimitAndUpdate() {
@@ -992,8 +1047,8 @@ func (m *memory) Triples(ctx context.Context, lo *storage.LookupOptions, trpls c
 		return fmt.Errorf("cannot provide an empty channel")
 	}
 
-	m.rwmu.RLock()
-	defer m.rwmu.RUnlock()
+	unlock := m.rlock()
+	defer unlock()
 	defer close(trpls)
 
 	ckr := newChecker(lo, nil)
@@ -1025,6 +1080,10 @@ func (m *memory) Triples(ctx context.Context, lo *storage.LookupOptions, trpls c
 		return err
 	}
 
+	// The results have been copied: release the lock before sending them, so a
+	// consumer that uses the graph while it drains the channel cannot deadlock
+	// with a writer waiting for the lock.
+	unlock()
 	cnt := 0
 	for _, t := range strTrpls {
 		if t != "" && ckr.CheckLimitAndUpdate() {
